@@ -59,3 +59,78 @@ package authboss
 //@   ensures[C18] hash_error_outcome: each Hash.Generate(_) -> (_, ?e) => e != nil ==> (result == e && !emits Store.Save(_))
 //@   ensures[C18] save_error_outcome: each Store.Save(_) -> ?e => e != nil ==> (result == e && !emits Store.DelRememberTokens(_))
 //@   ensures[C18] no_panic: !panics
+//@
+//@ -- C11: client-state changes reach the client once, in order, before the body -------------
+//@
+//@ func MustClientStateResponseWriter
+//@   property C11
+//@   option summary callers use this contract, not the body
+//@   invariant loop#1 unwrapping: true
+//@   -- the writer handed back is a real *ClientStateResponseWriter (never nil); not finding one panics
+//@   ensures finds_writer: result != nil
+//@
+//@ func setState
+//@   property C11
+//@   -- exactly one event {op, key, val} is appended to exactly the list of the store named by
+//@   -- ctxKey; the other list and both read states are left alone
+//@   ensures append_right_list:
+//@       ite(ctxKey == CTXKeySessionState,
+//@           (emits AppendOpaque(?old, ?el) -> ?nw :: len(el) == 1 && el[0].Kind == op && el[0].Key == key &&
+//@               el[0].Value == ite(op == ClientStateEventPut, val, "") &&
+//@               (emits MemWrite(?p, ?b, ?v) :: suffixof(".sessionStateEvents", p) && v == nw && old == list_at(b, "sessionStateEvents"))),
+//@       ite(ctxKey == CTXKeyCookieState,
+//@           (emits AppendOpaque(?old, ?el) -> ?nw :: len(el) == 1 && el[0].Kind == op && el[0].Key == key &&
+//@               el[0].Value == ite(op == ClientStateEventPut, val, "") &&
+//@               (emits MemWrite(?p, ?b, ?v) :: suffixof(".cookieStateEvents", p) && v == nw && old == list_at(b, "cookieStateEvents"))),
+//@           !emits MemWrite(_, _, _)))
+//@   ensures one_write: each MemWrite(?p, _, _) => !(before MemWrite(_, _, _)) &&
+//@       ite(ctxKey == CTXKeySessionState, suffixof(".sessionStateEvents", p), suffixof(".cookieStateEvents", p))
+//@   ensures nothing_delivered: !emits CS.WriteState(_, _, _, _) && !emits WriteHeader(_, _) && !emits Write(_, _)
+//@
+//@ spec lists_distinct(c) := len(c.sessionStateEvents) == 0 || len(c.cookieStateEvents) == 0 || c.sessionStateEvents != c.cookieStateEvents
+//@
+//@ func (*ClientStateResponseWriter).putClientState
+//@   property C11
+//@   requires lists_distinct(c)
+//@   -- each store gets exactly its own read state and its own accumulated list, session first,
+//@   -- and the writer is marked as flushed before anything is delivered
+//@   ensures right_lists: each CS.WriteState(?rw, ?w, ?state, ?evs) => w == c &&
+//@       ((rw == c.sessionStateRW && state == c.sessionState && evs == c.sessionStateEvents) ||
+//@        (rw == c.cookieStateRW && state == c.cookieState && evs == c.cookieStateEvents))
+//@   ensures each_store_once: each CS.WriteState(?rw, _, _, ?evs) => !(before CS.WriteState(_, _, _, ?evs2) :: evs2 == evs)
+//@   ensures session_before_cookie: each CS.WriteState(_, _, _, ?evs) => evs == c.sessionStateEvents ==>
+//@       !(before CS.WriteState(_, _, _, ?evs2) :: evs2 == c.cookieStateEvents && evs2 != c.sessionStateEvents)
+//@   ensures marked_before_delivery: each CS.WriteState(_, _, _, _) => before MemWrite(?p, ?b, ?v) :: suffixof(".hasWritten", p) && b == c && v == true
+//@   ensures delivers_pending: (!panics && result == nil) ==>
+//@       (((len(c.sessionStateEvents) > 0 && c.sessionStateRW != nil) ==> emits CS.WriteState(?rw, _, _, _) :: rw == c.sessionStateRW) &&
+//@        ((len(c.cookieStateEvents) > 0 && c.cookieStateRW != nil) ==> emits CS.WriteState(?rw2, _, _, ?e2) :: rw2 == c.cookieStateRW && e2 == c.cookieStateEvents))
+//@   ensures never_twice: panics <=> c.hasWritten
+//@
+//@ func (*ClientStateResponseWriter).WriteHeader
+//@   property C11
+//@   requires lists_distinct(c)
+//@   -- pending changes are flushed before the header is released, and only on the first write
+//@   ensures flush_before_header: (each WriteHeader(?w, ?cd) => w == c.ResponseWriter && cd == code && !(after CS.WriteState(_, _, _, _)) && !(before WriteHeader(_, _))) &&
+//@       (c.hasWritten ==> !emits CS.WriteState(_, _, _, _))
+//@   ensures header_released: !panics ==> emits WriteHeader(_, _)
+//@   ensures later_writes_never_panic: c.hasWritten ==> !panics
+//@
+//@ func (*ClientStateResponseWriter).Write
+//@   property C11
+//@   requires lists_distinct(c)
+//@   ensures flush_before_body: (each Write(?w, ?bb) => w == c.ResponseWriter && !(after CS.WriteState(_, _, _, _)) && !(before Write(_, _))) &&
+//@       (c.hasWritten ==> !emits CS.WriteState(_, _, _, _))
+//@   ensures later_writes_never_panic: c.hasWritten ==> !panics
+//@   ensures failed_flush_releases_nothing: each CS.WriteState(_, _, _, _) -> ?e => e != nil ==> (!emits Write(_, _) && result.1 == e)
+//@
+//@ func (*Authboss).LoadClientState
+//@   property C11
+//@   requires a.Config.Storage.SessionState != a.Config.Storage.CookieState
+//@   -- what was read at the start of the request is what handlers see (context) and what the
+//@   -- flush later hands to the store (writer), for each store separately
+//@   ensures read_is_seen: (result.1 == nil) ==>
+//@       ((each CS.ReadState(?rw, _) -> (?st, ?e) => (e == nil && st != nil && rw == a.Config.Storage.SessionState) ==>
+//@            (ctxsession(result.0) == st && emits MemWrite(?p, _, ?v) :: suffixof(".sessionState", p) && v == st)) &&
+//@        (each CS.ReadState(?rw, _) -> (?st, ?e) => (e == nil && st != nil && rw == a.Config.Storage.CookieState && rw != a.Config.Storage.SessionState) ==>
+//@            (ctxcookie(result.0) == st && emits MemWrite(?p, _, ?v) :: suffixof(".cookieState", p) && v == st)))
+//@   ensures read_error_outcome: each CS.ReadState(_, _) -> (_, ?e) => e != nil ==> result.1 == e
